@@ -12,6 +12,7 @@ from vf.monitor import Probes
 from vf.ref.urlread import R, clean, Unparseable, dec, host_canon
 from vf.gen import url as G
 
+MIN_RANDOM = 150  # random iterations run per shard whatever the wall-clock budget (floors must not depend on machine load)
 SHARDS = {"quick": 4, "thorough": 16}
 BUDGET = {"quick": 22, "thorough": 240}
 MIN_CASES = {"quick": 15000, "thorough": 300000}
@@ -494,7 +495,7 @@ def run(ctx):
         lim = 2500 if ctx.tier == "quick" else 10 ** 7
         MARK = ["", "", "www.", "m.", "mobile.", "amp.", "amp-", "www3.", "forum-m.", "x.m."]
         TAILS = [[], [["index.html"]], [["amp"]], [["a.amp"]], [["b.amp.html"]], [["default.aspx"]], [["Index.php"]], [["indexes"]]]
-        while ctx.time_left() and n < lim:
+        while (ctx.time_left() or n < MIN_RANDOM) and n < lim:
             n += 1
             c = G.random_case(rng, max_tok=rng.choice([1, 2, 3]), rich=rng.random() < 0.3)
             if rng.random() < 0.6 and not c["host"].startswith("[") and not c["host"][0].isdigit() and c["host"] != "localhost":
